@@ -7,7 +7,7 @@ from sa.astx import NotConst, call_attr, call_name, const_eval, src, walk_local
 from sa.domains import replace_chain
 from sa.selftest import Mutant, Silent
 from sa.source import AnalysisError, methods
-from sa.props._lib_j import (body_always_entered, normalise, catching_handler, edge_asserts, local_defs, no_exc, node_calls, params, resolve, rsrc,
+from sa.props._lib_j import (body_always_entered, normalise, flag_search, flags_at, edge_asserts, local_defs, no_exc, node_calls, params, resolve, rsrc,
                              run_sections)
 
 PROPERTY = "C51"
@@ -151,22 +151,27 @@ def _s_setitem(ctx, S):
         for r in rm_old:
             ctx.check(g.path([n], [r], edge_ok=no_exc) is None and g.guarded(r, lambda e: src(e) == f"{final}.exists()", True), "setitem/remove-then-rename",
                       ctx.construct(q, "old.remove()"), "the old entry is removed after the rename (deleting the new value) or without testing that it exists")
-    # failure handler
-    h = catching_handler(wc, f, "BaseException")
-    ctx.check(h is not None, "setitem/failed-write-cleaned-up", ctx.construct(q, "except <all> around _writeFile"),
-              "a failed write that is not an Exception subclass (KeyboardInterrupt...) leaves the partial temporary behind, visible as a stray key")
-    if h is not None:
-        hb = ast.Module(body=h.body, type_ignores=[])
-        calls = [c for c in ast.walk(hb) if isinstance(c, ast.Call)]
-        rm = [c for c in calls if call_attr(c) in ("remove", "unlink") and isinstance(c.func, ast.Attribute) and src(c.func.value) == src(tmp)]
-        touches_old = [c for c in calls if isinstance(c.func, ast.Attribute) and src(c.func.value) == final and call_attr(c) in MUTATORS] + \
-            [c for c in calls if call_attr(c) == "moveTo"]
-        hn = [n.id for n in g.nodes if n.kind == "handler" and n.ast is h and g.reachable(n.id)]
-        w = g.path(hn, [g.exit], edge_ok=no_exc)
-        ctx.check(bool(rm), "setitem/failed-write-cleaned-up", ctx.construct(q, "handler removes the temporary"), "the handler does not remove the temporary")
-        ctx.check(not touches_old, "setitem/failed-write-keeps-old", ctx.construct(q, "handler leaves the old entry"), "the failure handler modifies the old entry")
-        ctx.check(w is None, "setitem/failed-write-propagates", ctx.construct(q, "handler re-raises"), "a failed write is reported as success", witness=g.describe(w))
-
+    # failure of the write, judged on the paths that leave the write on its EXCEPTIONAL edge (consistently with boolean flags such as `written`), whatever
+    # construct handles it (except BaseException: ...; raise  /  try ... finally: if not written: ...):
+    #   cleaned-up   every such path removes the temporary before it leaves the function;
+    #   keeps-old    none of them touches the old entry or moves the temporary into place;
+    #   propagates   none of them reaches a normal return.
+    envs = flags_at(g, wn)
+    starts = [((d, e)) for d, l in g.succ[wn] if l == "exc" for e in envs]
+    tmp_rm = [n for n, c in node_calls(g, lambda c: call_attr(c) in ("remove", "unlink") and isinstance(c.func, ast.Attribute) and src(c.func.value) == src(tmp))]
+    tmp_rm += [n for n, c in node_calls(g, lambda c: call_name(c) in ("os.remove", "os.unlink") and c.args and src(c.args[0]) == src(tmp) + ".path")]
+    old_touch = [n for n, c in removes] + [n for n, c in moves]
+    ctx.check(bool(starts), "setitem/failed-write-cleaned-up", ctx.construct(q, "except <all> around _writeFile"), "the write has no exceptional edge in the CFG")
+    w = flag_search(g, starts, [g.raise_exit], avoid=tmp_rm)
+    ctx.check(bool(tmp_rm) and w is None, "setitem/failed-write-cleaned-up", ctx.construct(q, "except <all> around _writeFile"),
+              "a failed write (of any exception class, KeyboardInterrupt included) can leave the function without the partial temporary having been removed: it stays behind, "
+              "visible as a stray key", witness=g.describe([wn] + w) if w else "")
+    w = flag_search(g, starts, old_touch)
+    ctx.check(w is None, "setitem/failed-write-keeps-old", ctx.construct(q, "handler leaves the old entry"),
+              "after a failed write the old entry is removed or the partial temporary is moved into place", witness=g.describe([wn] + w) if w else "")
+    w = flag_search(g, starts, [g.exit])
+    ctx.check(w is None, "setitem/failed-write-propagates", ctx.construct(q, "handler re-raises"), "a failed write is reported as success",
+              witness=g.describe([wn] + w) if w else "")
 
 
 def _s_writefile(ctx, S):
@@ -253,15 +258,40 @@ def _s_recovery(ctx, S):
         elif ext == ".rpl":
             # target name = file name without exactly the suffix
             target = None
-            for k, v in local_defs(ln.ast).items():
+            wrong = None
+            simple_ext = isinstance(ext, str) and ext.startswith(".") and "." not in ext[1:] and len(ext) > 1     # then os.path.splitext(name + ext) == (name, ext)
+
+            def strips_suffix(d):
+                """True / False: expression d is / is not ``var`` without exactly ``ext``; None: not a suffix-stripping shape"""
+                if isinstance(d, ast.Subscript) and src(d.value) == var and isinstance(d.slice, ast.Slice) and d.slice.lower is None and d.slice.step is None:
+                    try:
+                        hi = const_eval(d.slice.upper) if d.slice.upper is not None else None
+                    except NotConst:
+                        return None
+                    return hi == -len(ext)
+                if isinstance(d, ast.Subscript) and isinstance(d.slice, ast.Constant) and d.slice.value == 0 and isinstance(d.value, ast.Call):
+                    c_ = d.value
+                    if call_name(c_) in ("os.path.splitext", "splitext") and len(c_.args) == 1 and src(c_.args[0]) == var:
+                        return simple_ext
+                    if call_attr(c_) == "rsplit" and src(c_.func.value) == var and [src(a) for a in c_.args] == ["'.'", "1"]:
+                        return simple_ext
+                    if call_attr(c_) == "rpartition" and src(c_.func.value) == var and [src(a) for a in c_.args] == ["'.'"]:
+                        return simple_ext
+                if isinstance(d, ast.Call) and call_attr(d) == "removesuffix" and src(d.func.value) == var and len(d.args) == 1:
+                    try:
+                        return const_eval(d.args[0]) == ext
+                    except NotConst:
+                        return None
+                return None
+            for k, v in local_defs(ln.ast, track_mutation=False).items():
                 for d in v:
-                    if d is not None and isinstance(d, ast.Subscript) and src(d.value) == var and isinstance(d.slice, ast.Slice):
-                        try:
-                            hi = const_eval(d.slice.upper) if d.slice.upper is not None else None
-                        except NotConst:
-                            hi = None
-                        if d.slice.lower is None and hi == -len(ext):
-                            target = k
+                    r_ = strips_suffix(d) if d is not None else None
+                    if r_ is True:
+                        target = k
+                    elif r_ is False:
+                        wrong = k
+            if target is None and wrong is None:
+                raise AnalysisError(f"recovery of *{ext}: how the target name is derived from the file name is not read")
             ctx.check(target is not None, "recovery/strips-exact-suffix", where,
                       f"the target of a replacement is not the file name minus exactly {len(ext)} characters: the replacement is renamed to a wrong key")
             if target is None:
@@ -394,6 +424,10 @@ MUTANTS = [
            expect_rule="who-may-mutate/directory"),
     Mutant("writeFile-unbuffered", DB, "        with _open(path.path, \"wb\") as f:\n            f.write(data)", "        with _open(path.path, \"wb\", 0) as f:\n            f.write(data)",
            expect_rule="writefile/buffered-handle"),
+    Mutant("flag-set-before-the-write", DB, "        try:\n            self._writeFile(new, v)\n        except BaseException:\n            new.remove()\n            raise\n        else:\n            if old.exists():\n                old.remove()\n            new.moveTo(old)",
+           "        done = True\n        try:\n            self._writeFile(new, v)\n        finally:\n            if not done:\n                new.remove()\n        if old.exists():\n            old.remove()\n        new.moveTo(old)",
+           expect_rule="setitem/failed-write-cleaned-up"),
+    Mutant("recovery-target-by-first-dot", DB, "                old = f[:-4]\n", "                old = f.split(\".\")[0]\n"),
     Mutant("new-recovery-renames", DB, "            for f in glob.glob(self._dnamePath.child(\"*.new\").path):\n                os.remove(f)", "            for f in glob.glob(self._dnamePath.child(\"*.new\").path):\n                os.rename(f, f[:-4])",
            expect_rule="recovery/new-deleted"),
 ]
@@ -412,6 +446,9 @@ SILENT = [
                  (DB, "class DirDBM:\n", "_TMP_NEW = \".new\"\n\n\nclass DirDBM:\n")]),
     Silent("encode-table-driven", DB, "        return base64.encodebytes(k).replace(b\"\\n\", b\"_\").replace(b\"/\", b\"-\")",
            "        out = base64.encodebytes(k)\n        for bad, good in ((b\"\\n\", b\"_\"), (b\"/\", b\"-\")):\n            out = out.replace(bad, good)\n        return out"),
+    Silent("write-failure-handled-by-flag-and-finally", DB, "        try:\n            self._writeFile(new, v)\n        except BaseException:\n            new.remove()\n            raise\n        else:\n            if old.exists():\n                old.remove()\n            new.moveTo(old)",
+           "        done = False\n        try:\n            self._writeFile(new, v)\n            done = True\n        finally:\n            if not done:\n                new.remove()\n        if old.exists():\n            old.remove()\n        new.moveTo(old)"),
+    Silent("recovery-target-by-splitext", DB, "                old = f[:-4]\n", "                old, _ext = os.path.splitext(f)\n"),
     Silent("recovery-loops-reordered", DB, "            for f in glob.glob(self._dnamePath.child(\"*.new\").path):\n                os.remove(f)\n            replacements = glob.glob(self._dnamePath.child(\"*.rpl\").path)\n            for f in replacements:\n                old = f[:-4]\n                if os.path.exists(old):\n                    os.remove(f)\n                else:\n                    os.rename(f, old)\n",
            "            replacements = glob.glob(self._dnamePath.child(\"*.rpl\").path)\n            for f in replacements:\n                old = f[:-4]\n                if os.path.exists(old):\n                    os.remove(f)\n                else:\n                    os.rename(f, old)\n            for stale in glob.glob(self._dnamePath.child(\"*.new\").path):\n                os.remove(stale)\n"),
 ]
